@@ -6,7 +6,7 @@ export CARGO_NET_OFFLINE=true
 export RBP_SRC="${VERIF_SUBJECT:-/repo}/src"
 mkdir -p .build evidence replays
 cargo build --offline --manifest-path "${VERIF_SUBJECT:-/repo}/Cargo.toml" --target-dir .build/subject
-cargo build --offline --release --manifest-path "${VERIF_SUBJECT:-/repo}/Cargo.toml" --target-dir .build/subject
+cargo build --offline --release --manifest-path "${VERIF_SUBJECT:-/repo}/Cargo.toml" --target-dir .build/subject-release
 (cd mc && cargo build --offline --workspace --target-dir "$PWD/../.build/mc" && cargo build --offline --release -p inproc --target-dir "$PWD/../.build/mc")
 if [ -f faultfs/faultfs.c ]; then gcc -O2 -shared -fPIC -o .build/faultfs.so faultfs/faultfs.c -ldl; fi
 echo setup done
